@@ -4,7 +4,7 @@
 ROOT=${1:-/tmp/mut}; OUT=${2:-/root/mutant_confirm.jsonl}
 BASE=${BASE:-447ed3b}
 : > "$OUT"
-for d in $ROOT/C*/[a-j]; do
+for d in $ROOT/C*/[a-k]; do
   id=$(basename $(dirname $d))_$(basename $d)
   WT=/tmp/wtv_$id
   git -C /repo worktree add -f --detach $WT $BASE -q 2>/dev/null
